@@ -430,6 +430,11 @@ def import_exact_full : Prop :=
       (∀ h b, sys.node.chain[h]? = some b → AMap.get sys.s.sync h = some b.id)) →
     walletBalance sys.s w minConf = some (Spec.Chain.balance p own sys.node.chain w minConf)
 
+/-- the regenerated constants have the shape the theorems assume (positive batch size and expiry window, the done
+    sentinel is the top of uint64) -/
+theorem gen_tie : Gen.Handler.importBatch > 0 ∧ Gen.Handler.maxMemPoolExpire > 0 ∧
+    Gen.Handler.walletSyncedDone = 2 ^ 64 - 1 ∧ Gen.Handler.importBatch + Gen.Handler.walletSyncedDone ≥ 2 ^ 64 := by decide
+
 -- ------------------------------------------------------------------ non-vacuity (tests by evaluation)
 
 namespace Ex
